@@ -13,7 +13,7 @@ import sys
 SEED = os.environ.get("SEED_DIR", "/tmp/seed")
 SUFFIX = os.environ.get("ID_SUFFIX", "")          # e.g. "2" -> ids like C01-A2 for a second round
 ONLY_OWN = bool(os.environ.get("ONLY_OWN"))
-WT = "/tmp/vf_seed_eval"
+WT = os.environ.get("EVAL_WT", "/tmp/vf_seed_eval")
 OUT = "/verif/seeded"
 ENV = dict(os.environ, OMP_NUM_THREADS="1", MKL_NUM_THREADS="1", PYTHONDONTWRITEBYTECODE="1")
 # besides its own property, changes are also run against these related checks
@@ -92,6 +92,15 @@ def main():
                 first = next((l for l in outc.splitlines() if l.strip().startswith("failure:")), "")
                 (caught if rcc == 1 else missed).append(cid)
                 rec["ran"].append("VF_REPO=<scratch> ./check %s quick: exit %d %s" % (cid, rcc, first.strip()[:260]))
+            if ONLY_OWN:
+                # keep what an earlier full evaluation recorded about the other checks
+                try:
+                    old = json.load(open(os.path.join(OUT, mid, "meta.json")))
+                    caught += [c for c in old.get("caught_by", []) if c != prop and c not in caught]
+                    missed += [c for c in old.get("not_caught_by", []) if c != prop and c not in missed and c not in caught]
+                    rec["other_checks_from_earlier_run"] = True
+                except Exception:
+                    pass
             rec["caught_by"] = caught
             rec["not_caught_by"] = missed
             rec["status"] = "confirmed" if confirmed else "NOT confirmed (demo unchanged=%d, demo changed=%d, tests ok=%s)" % (rc0, rc1, tests_ok)
